@@ -46,6 +46,16 @@ fn explore() -> i32 {
             println!("{src}\n   fresh block scanner: {fresh_block}  converted after scan: {converted}  converted unused: {converted_unused}  contiguous scan of `12345`: {contiguous}");
         }
     }
+    {
+        // triage: header constraints (`$a at 0 and $b`) in block mode when the block at base 0 is shorter than the header
+        let rules = yara_x::compile(r#"rule t { strings: $a = "MZ" $b = "needle" condition: $a at 0 and $b }"#).unwrap();
+        let file = b"MZ.. needle ....";
+        for blocks in [vec![(0usize, 16usize)], vec![(0, 0), (0, 16)], vec![(0, 1), (0, 16)], vec![(0, 1), (1, 15)], vec![(0, 16), (0, 1)], vec![(0, 2), (2, 14)], vec![(2, 14), (0, 2)], vec![(0, 1), (0, 2), (2, 14)]] {
+            let mut b = yara_x::blocks::Scanner::new(&rules);
+            for (base, len) in &blocks { b.scan(*base, &file[*base..*base + *len]).unwrap(); }
+            println!("header rule, blocks {:?}: matches = {}", blocks, b.finish().unwrap().matching_rules().len());
+        }
+    }
     if std::env::var("C04_EXPLORE_FULL").is_err() { return 0; }
     quiet_panics();
     let show = |name: &str, rs: usize, h: Vec<Op>, p: Probe| {
